@@ -46,6 +46,10 @@ def transcript(name):
         return {'banner': 'SSH-1.5-OpenSSH_1.2.3', 'proto': 1, 'ssh1': {'cmask': 0x48, 'amask': 0x0c, 'host_bits': 1024}}
     if name == 'T6':
         return {'banner': 'SSH-2.0-OpenSSH_9.3', 'kex': audit.sym_kex(['curve25519-sha256', 'kex-strict-c-v00@openssh.com'], ['ssh-ed25519'], enc, mac)}
+    if name == 'T8':
+        # several host-key types AND a group exchange: a probe that fails for one key type is followed by further probe phases
+        return {'banner': 'SSH-2.0-OpenSSH_9.3', 'kex': audit.sym_kex(['curve25519-sha256', GEX256], ['rsa-sha2-512', 'ssh-ed25519', 'ecdsa-sha2-nistp256'], enc, mac),
+                'hostkeys': {'rsa-sha2-512': {'type': 'rsa', 'bits': 3072}, 'ssh-ed25519': {'type': 'ed25519'}, 'ecdsa-sha2-nistp256': {'type': 'ecdsa', 'bits': 256}}, 'gex': {'sizes': [2048, 4096], 'style': 'strict'}}
     raise ValueError(name)
 
 
@@ -84,6 +88,14 @@ def cases(tier, seed):
     for beh in RATE_BEHAVIOURS:
         for rep_ in range(1 if tier == 'quick' else 4):
             cs.append({'T': 'T7', 'op': 'rate', 'beh': beh, 'after': [0, 1, 3, 10][rep_]})
+    # T8: one of the three host-key probes (or a group-exchange probe) goes wrong, the others and the group-exchange phase follow
+    cs.append({'T': 'T8', 'op': 'none'})
+    for conn in (1, 2, 3):
+        for op in ({'op': 'close_before'}, {'op': 'stall_before'}, {'op': 'patch', 'offset': 5, 'hex': '03'}, {'op': 'patch', 'offset': 5, 'hex': '01'}, {'op': 'random', 'seed': 11}, {'op': 'truncate', 'offset': 9, 'then': 'close'}):
+            cs.append(dict({'T': 'T8', 'conn': conn, 'at': 'kexreply'}, **op))
+    for conn in (4, 5, 6):
+        for op in ({'op': 'close_before'}, {'op': 'patch', 'offset': 5, 'hex': '03'}):
+            cs.append(dict({'T': 'T8', 'conn': conn, 'at': 'gexgroup'}, **op))
     for T in ('T1', 'T2', 'T3', 'T4', 'T5', 'T6'):
         cs.append({'T': T, 'op': 'none'})
         msgs = messages(T)
